@@ -267,6 +267,9 @@ class TimeStamp(TdmsType):
         if not isinstance(value, np.datetime64):
             value = np.datetime64(value, 'us')
         self.value = value
+        if np.datetime_data(value.dtype)[0] in ('ns', 'ps', 'fs', 'as'):
+            # Subtracting the epoch in a unit finer than microseconds can overflow 64 bits (after the year 2196 for ns)
+            value = value.astype('datetime64[us]')
         epoch_delta = value - self._tdms_epoch
 
         # Use exact integer arithmetic, float division loses precision for dates far from the epoch.
